@@ -203,6 +203,19 @@ def statements():
         ("any flagged", "SELECT EXISTS(SELECT 1 FROM step WHERE _check_after)", ()),
         ("reset running", f"UPDATE step SET state = 24 WHERE state = 22", ()),
     ]
+    upsert = "INSERT INTO file VALUES(:node, :state, :hash) ON CONFLICT DO UPDATE SET state = :state WHERE node = :node"
+    for n in (2, 3, 4):
+        S.append((f"file upsert PLANNED {n}", upsert, {"node": n, "state": 15, "hash": None}))
+        S.append((f"file upsert UNCONFIRMED {n}", upsert, {"node": n, "state": 12, "hash": None}))
+        S.append((f"file upsert OUTDATED {n}", upsert, {"node": n, "state": 17, "hash": live.hash_json_pool()[0]}))
+    S += [
+        ("node reparent", "UPDATE node SET creator = ?, detached = ? WHERE i = ?", (2, True, 3)),
+        ("node orphan", "UPDATE node SET creator = NULL, detached = TRUE WHERE i = ?", (3,)),
+        ("del sources of", "DELETE FROM dependency WHERE sink = ?", (3,)),
+        ("find attached claim", "SELECT file.state, cnode.i, cnode.kind, cnode.label FROM node JOIN file ON node.i = file.node JOIN node AS cnode ON cnode.i = node.creator WHERE node.kind = 'file' AND NOT node.detached AND node.label = ?", ("a",)),
+        ("detached leaves", "SELECT i, kind, label, creator FROM node WHERE detached AND NOT EXISTS (SELECT 1 FROM node AS cnode WHERE node.i = cnode.creator) AND NOT EXISTS (SELECT 1 FROM dependency WHERE node.i = dependency.source)", ()),
+        ("defer count", "UPDATE step SET defer_count = defer_count + 1 WHERE node = ? RETURNING defer_count", (2,)),
+    ]
     S.append(("SELECT_NEXT_STEP", sch.SELECT_NEXT_STEP.replace("INDEXED BY step_dispatch", ""), (31,)))
     for nm in ("UPDATE_OPTIONAL_STEPS",):
         pass
